@@ -7,6 +7,7 @@
 package main
 
 import (
+	"encoding/json"
 	"fmt"
 	"go/ast"
 	"go/parser"
@@ -14,6 +15,8 @@ import (
 	"math/big"
 	"os"
 	"path/filepath"
+	"reflect"
+	"runtime"
 	"sort"
 	"strings"
 )
@@ -28,9 +31,13 @@ func env(k, d string) string {
 	return d
 }
 
+// die aborts the generator that is running (see main): its output file keeps its
+// previous content and the failure is recorded in Gen/FAILED.json, so that only
+// the properties whose theorems depend on that file are reported as broken.
+type genAbort struct{ msg string }
+
 func die(format string, a ...any) {
-	fmt.Fprintf(os.Stderr, "go2coq: "+format+"\n", a...)
-	os.Exit(1)
+	panic(genAbort{fmt.Sprintf(format, a...)})
 }
 
 var fset = token.NewFileSet()
@@ -228,10 +235,30 @@ func write(name, content string) {
 var _ = sort.Strings
 
 func main() {
-	genConsts()
-	for _, g := range generators {
+	failed := map[string]string{}
+	run := func(g func()) {
+		// genXxx writes Gen/Xxx.v (convention)
+		name := runtime.FuncForPC(reflect.ValueOf(g).Pointer()).Name()
+		name = strings.TrimPrefix(name[strings.LastIndex(name, ".")+1:], "gen") + ".v"
+		defer func() {
+			if e := recover(); e != nil {
+				if ab, ok := e.(genAbort); ok {
+					fmt.Fprintf(os.Stderr, "go2coq: %s: %s\n", name, ab.msg)
+					failed[name] = ab.msg
+					return
+				}
+				panic(e)
+			}
+		}()
 		g()
 	}
+	run(genConsts)
+	for _, g := range generators {
+		run(g)
+	}
+	js, _ := json.MarshalIndent(failed, "", " ")
+	_ = os.MkdirAll(outDir, 0o755)
+	_ = os.WriteFile(filepath.Join(outDir, "FAILED.json"), js, 0o644)
 }
 
 var generators = []func(){}
